@@ -72,7 +72,8 @@ def _case(draw):
             "append": draw(st.integers(0, 3)) == 0, "loky": False,
             # a final non-append run onto the output path of an earlier, LONGER run (its out.bin and the rms / time
             # placeholder files are still there and hold more data than this run produces)
-            "rerun_over_longer": draw(st.booleans())}
+            "rerun_over_longer": draw(st.booleans()),
+            "debug_log": draw(st.sampled_from([False, False, False, True]))}
     return case
 
 
@@ -165,6 +166,16 @@ def _reference(V, sr, h, case, kw, labels, wrot, nc_out):
 
 
 def run_case(case, ctx):
+    if case.get("debug_log"):
+        # process state: logging switched on at DEBUG level (logging.basicConfig(level=logging.DEBUG) in the calling script)
+        from vp.core import debug_logging
+        ctx.label("debug_logging_on")
+        with debug_logging():
+            return _run_case(case, ctx)
+    return _run_case(case, ctx)
+
+
+def _run_case(case, ctx):
     import joblib
     sg, V = sut.spikeglx(), sut.voltage()
     spec = case["spec"]
